@@ -14,7 +14,7 @@ SPEC = {
     "claim": {
         "category": "exploration",
         "technique": "stateful model-based generation (rapidcheck byte-decoded histories, libFuzzer) against a std::string model per stream, with allocation-registry ownership/leak invariants after every step",
-        "text": "Generated histories over three heap-placed streams append text of every supported kind with sizes aimed at the in-object capacity and each doubling boundary, truncate/erase to every relation of n to size, and move streams in every storage mode; after every step size() and raw_buffer() must equal a byte-string model, to_string() must validate/transcode those bytes, a moved-from stream must be empty and usable, and the registry must show exclusive ownership, no double free and no leak. Two histories in three use the extended operation table: char8_t text, views of every width over unterminated exact-size blocks, wide / UTF-16 / UTF-32 text of 255-4096 code points and with embedded U+0000, ST buffers, std::filesystem::path, every null / zero-length form, append_char up to 65535, numbers of every type written at exactly capacity-k bytes (k = 0..21, capacities 256-8192), promoted integer types, truncate/erase followed by an append landing on 256..4096 (and one off), to_string with every validation mode in both readings, move-assignment chains, streams moved from and refilled repeatedly, assignment from temporaries, chained inserters, and appends whose growth allocation is made to fail (the stream's reported state is adopted and must remain a valid stream for the rest of the history). Enumerated on top: streams of 2^k-1, 2^k, 2^k+1 bytes for k = 16..23 (25 in the thorough tier) fed at once / in 64 KiB / in 4 KiB pieces, then one append of 1 byte, 2^k, 2^(k+1)+3, 3 MiB+7, 5 MiB or an append_char of 300, then truncate, erase, append and a move, compared byte for byte with a std::string model.",
+        "text": "Generated histories over three heap-placed streams append text of every supported kind with sizes aimed at the in-object capacity and each doubling boundary, truncate/erase to every relation of n to size, and move streams in every storage mode; after every step size() and raw_buffer() must equal a byte-string model, to_string() must validate/transcode those bytes, a moved-from stream must be empty and usable, and the registry must show exclusive ownership, no double free and no leak. Two histories in three use the extended operation table: char8_t text, views of every width over unterminated exact-size blocks, wide / UTF-16 / UTF-32 text of 255-4096 code points and with embedded U+0000, ST buffers, std::filesystem::path, every null / zero-length form, append_char up to 65535, numbers of every type written at exactly capacity-k bytes (k = 0..21, capacities 256-8192), promoted integer types, truncate/erase followed by an append landing on 256..4096 (and one off), to_string with every validation mode in both readings, move-assignment chains, streams moved from and refilled repeatedly, assignment from temporaries, chained inserters, and appends whose growth allocation is made to fail (the stream's reported state is adopted and must remain a valid stream for the rest of the history). Enumerated on top: streams of 2^k-1, 2^k, 2^k+1 bytes for k = 16..23 (25 in the thorough tier) fed at once / in 64 KiB / in 4 KiB pieces, then one append of 1 byte, 2^k, 2^(k+1)+3, 3 MiB+7, 5 MiB or an append_char of 300, then truncate, erase, append and a move, compared byte for byte with a std::string model. Operation 20 inserts ST::string values holding bytes that are not valid UTF-8; C allocator calls of library code are tracked like operator new.",
         "level_note": "Sampled histories (<= 80 operations, total size <= ~64 KiB per stream). Absence beyond the explored histories is not established.",
     },
 }
